@@ -51,6 +51,7 @@ class Oracle(simcheck.BaseOracle):
         self.pre = None
         if a[0] == "place" and order is not None:
             ctx = order.trade.strategy._invested.get(order.lookup)
+            self.pre_msg = order.violation_msg
             self.pre = (order, None) if ctx is None else (
                 order, {"live": order.trade.id in ctx.live_trades, "known": order.trade.id in ctx.trades,
                         "reset": own_elapsed(ctx.datetime_last_reset), "placed": own_elapsed(ctx.datetime_last_placed),
@@ -87,6 +88,8 @@ class Oracle(simcheck.BaseOracle):
             # refused by a cool-down: then the clock really is inside that window (otherwise the strategy is locked out of a runner
             # it may trade again)
             pre, msg = self.pre[1], order.violation_msg or ""
+            if msg == (getattr(self, "pre_msg", None) or ""):
+                msg = ""        # (the message of an EARLIER refusal of this order: this request was refused for another reason)
             if "reset_elapsed_seconds" in msg and (pre["reset"] is None or pre["reset"] >= order.trade.reset_seconds):
                 self.add("refused-outside-the-cool-down", "strategy %d runner %s: order refused (%s) %ss after the last reset, reset_seconds %s" % (
                     sidx, order.lookup, msg[-60:], pre["reset"], order.trade.reset_seconds))
